@@ -9,6 +9,7 @@ open RedunModel.Script (Str)
    array scratch arrayId (hash*)          -> (s<input> s<output> s<error> s<hashes> (out*) (err*) s<evaltext>)
    elem scratch (hash*) i<n>              -> (i<args> i<kwargs> s<out> s<err>) | !IndexError
    gather ((name id ((cid i<n>)*))*) ((parent (hash*))*)   -> ((hash id)*) | !IndexError
+   ops scratch (hash*) i<n> T|F none|code|import|lookup|task  -> ((remove p)|(werror p)|(woutput p) ...) | !IndexError
    gatherq queue prefix ((name id queue STATUS ((cid i<n> STATUS)*))*) ((parent (hash*))*) -> ((hash id)*) | !IndexError
    reunite ((hash id)*) T|F evalhash (aliveId*)            -> (s<id>|none ((hash id)*)) -/
 
@@ -65,6 +66,18 @@ def inQJob : Sexp → Option BatchJob
     pure { name := ← inS n, jobId := ← inS i, queue := ← inS q, status := ← inStatus st, children := ← inList inQChild ch }
   | _ => none
 
+def inFail : Sexp → Option (Option FailAt)
+  | .atom "none" => some none
+  | .atom "code" => some (some .code)
+  | .atom "import" => some (some .importScript)
+  | .atom "lookup" => some (some .taskLookup)
+  | .atom "task" => some (some .task)
+  | _ => none
+def opS : FileOp → String
+  | .remove p => "(remove " ++ outS p ++ ")"
+  | .writeError p => "(werror " ++ outS p ++ ")"
+  | .writeOutput p => "(woutput " ++ outS p ++ ")"
+
 def mkJobs (hashes : List Str) : List (RJob Nat Nat) :=
   (List.range hashes.length).zip hashes |>.map fun (i, h) => { evalHash := h, args := i, kwargs := i }
 
@@ -95,6 +108,12 @@ def step (_ : Unit) (line : String) : Unit × String :=
       | .ok pre => ((), preS pre)
       | .error _ => ((), "!IndexError")
     | _, _ => ((), "bad-value")
+  | some [.atom "ops", s, hs, i, c, f] => match inS s, inList inS hs, inN i, inB c, inFail f with
+    | some s, some hs, some i, some c, some f =>
+      match oneshotOps (writeArrayFiles s (mkJobs hs)) i c f with
+      | .ok ops => ((), "(" ++ " ".intercalate (ops.map opS) ++ ")")
+      | .error _ => ((), "!IndexError")
+    | _, _, _, _, _ => ((), "bad-value")
   | some [.atom "gatherq", q, p, js, fs] => match inS q, inS p, inList inQJob js, inList inFile fs with
     | some q, some p, some js, some fs =>
       let evalFile : Str → Option (List Str) := fun u => (fs.find? (fun f => f.1 = u)).map (·.2)
